@@ -1,6 +1,7 @@
 from vlib import Ob
 OBLIGATIONS = []
 B = 'C02/buf.cc'
+DIV = '_ZN5draco33SequentialIntegerAttributeDecoder19DecodeIntegerValuesERKSt6vectorINS_9IndexTypeIjNS_20PointIndex_tag_type_EEESaIS4_EEPNS_13DecoderBufferE'
 def ub(name, h, entry, **kw):
     kw.setdefault('tier', 'quick')
     OBLIGATIONS.append(Ob(name, h, entry, ub=True, flavour='nospec', **kw))
@@ -51,8 +52,8 @@ ub('C02.texcoords_dec', 'C02/texdec.cc', 'h_texcoords_dec', unwind=40, max_alloc
 ub('C02.geom_normal_pred', 'C02/geomdec.cc', 'h_geom_normal_pred', unwind=12, max_alloc=64, timeout=900, backend='kissat', tier='quick', known='F13',
    bound='1 triangle, ANY int32 positions, both prediction modes',
    covers='MeshPredictionSchemeGeometricNormalPredictorArea::ComputePredictedValue, GetPositionForCorner, CrossProduct, VectorD::AbsSum, VertexCornersIterator')
-ub('C02.seq_int_values', 'C02/seqint.cc', 'h_seq_int_values', unwind=12, max_alloc=256, defines={'VERIF_SMALL_ALLOC': 32}, timeout=900, mem_gb=20, fill_bound=12,
+ub('C02.seq_int_values', 'C02/seqint.cc', 'h_seq_int_values', unwind=14, max_alloc=256, defines={'VERIF_SMALL_ALLOC': 32, 'NENT': 1, 'NB': 12}, unwindset=[DIV + '.0:4', DIV + '.1:4'], diff=False, nodiff_reason='DecodeSymbols is cut by a stub on the model side only', timeout=900, mem_gb=20, fill_bound=14,
    stubs={'_ZN5draco13DecodeSymbolsEjiPNS_13DecoderBufferEPj': 'ret0'},
-   bound='10 symbolic bytes (symbolic length), every version 1.0..2.3, 2 entries x 1..2 components, final attribute of every integer type; compressed-value path (DecodeSymbols) cut',
-   covers='SequentialIntegerAttributeDecoder::DecodeIntegerValues (raw paths, entry size field), PreparePortableAttribute, ConvertSymbolsToSignedInts, StoreValues / StoreTypedValues<T>, DataBuffer::Write')
+   bound='12 symbolic bytes (symbolic length), 1 entry x 1..2 components (enough input for a 5-byte entry size: the stated size decides which size-check defects are visible); compressed-value path (DecodeSymbols) cut',
+   covers='SequentialIntegerAttributeDecoder::DecodeIntegerValues (raw paths, entry size field), PreparePortableAttribute, ConvertSymbolsToSignedInts')
 META = {}
